@@ -31,10 +31,11 @@ KNOWN_SHAPE = "casefold-offending-char"
 
 
 def strict_failures():
-    body = ("From EV Require Import Base.Str Gen.ExtractorsAll.\nFrom Coq Require Import NArith.\n"
-            "Eval vm_compute in all_strict_failures.\n")
+    """-> (extractors failing the full-strength check, extractors failing even the partial one)"""
+    body = ("From EV Require Import Base.Str Gen.ExtractorsData.\nFrom Coq Require Import NArith.\n"
+            "Eval vm_compute in all_strict_failures.\nEval vm_compute in all_partial_failures.\n")
     vals = core.coq_eval("C13_failures", body, 600)
-    return [int(x) for x in vals[0]]
+    return [int(x) for x in vals[0]], [int(x) for x in vals[1]]
 
 
 def run(ctx):
@@ -47,31 +48,34 @@ def run(ctx):
 
     # ---- the kernel's verdict per extractor
     try:
-        fails = strict_failures()
+        fails, pfails = strict_failures()
     except core.CoqEvalError as e:
-        ctx.proof_failures.append("cannot evaluate all_strict_failures: " + str(e)[-500:])
-        fails = []
-    kinds = meta.get("extractor_kinds", {})
+        ctx.proof_failures.append("cannot evaluate the per-extractor failure lists: " + str(e)[-500:])
+        fails, pfails = [], []
     for idx in fails:
         e = EXTRACTORS[idx] if idx < len(EXTRACTORS) else None
-        if e is not None and (e.flags & re.I) and kinds.get(str(idx)) in ("KId", "KSupra", "KStopWord"):
+        if idx not in pfails:
+            # fails for every text but passes for texts free of the offending case variants: the known finding
             ctx.count("extractor failing the strict literal check (known: case-insensitive letter classes)")
             continue
-        # a new extractor whose strings are not implied by its pattern: search for a witness
+        # an extractor whose strings are not implied by its pattern even on ordinary text: search for a witness
         found = False
         if e is not None:
+            ci = bool(e.flags & re.I)
             ast = retrans.parse(e.regex, e.flags)[0]
-            for _ in range(3000):
-                w = regen.word(rng, ast, bool(e.flags & re.I))
-                if e.compiled_regex.search(w) and not any((s.lower() if e.flags & re.I else s) in (w.lower() if e.flags & re.I else w) for s in e.strings):
+            for _ in range(6000):
+                w = regen.word(rng, ast, ci)
+                if any(ord(c) in offending for c in w):
+                    continue
+                if e.compiled_regex.search(w) and not any((s.lower() if ci else s) in (w.lower() if ci else w) for s in e.strings):
                     ctx.violation(None, f"extractor #{idx} matches a text that contains none of its filter strings",
-                                  dict(stream="words", extractor=idx, regex=e.regex[:300], strings=e.strings, text=w))
+                                  dict(stream="words", extractor=idx, regex=e.regex[:300], strings=list(e.strings)[:20], text=w))
                     found = True
                     break
         if not found:
-            ctx.proof_failures.append(f"extractor #{idx}: the kernel-run literal check fails (strings {e.strings if e else '?'}) "
+            ctx.proof_failures.append(f"extractor #{idx}: the kernel-run literal check fails (strings {list(e.strings)[:10] if e else '?'}) "
                                       f"and no witness text was found")
-    ctx.notes.append(f"strict-check failures: {fails}")
+    ctx.notes.append(f"strict-check failures: {fails}; partial-check failures: {pfails}")
 
     ac = AhocorasickTokenizer()
     ref = Tokenizer()
